@@ -750,3 +750,32 @@ def write_error_after_progress():
                        ("quiesce",), ("eof", 1), ("quiesce",), ("eof", 0), ("eof", 2), ("quiesce",)]
                 out.append(Scenario(st, name="write-error-after-progress-%s-%s-%s" % (budget.replace(",", "_").replace(":", "_"), role, tr)))
     return out
+
+
+def fetch_only_rules():
+    """a fetch-only state refuses set from everybody (owner included) whatever else is going on around it: fetches attached
+    and detached, the value changed by its owner, other elements of the same owner being set"""
+    out = []
+    for tr in ("raw", "ws"):
+        for who in (0, 1, 2):
+            st = [("connect", 0, "raw", "local6"), ("connect", 1, tr, "remote6"), ("connect", 2, "raw", "remote6"),
+                  ("msg", 0, obj(method="add", params=obj(path="ro", value=1, fetchOnly=True), id=1)),
+                  ("msg", 0, obj(method="add", params=obj(path="rw", value=1, fetchOnly=False), id=2)),
+                  ("msg", 0, obj(method="add", params=obj(path="m"), id=3)),
+                  ("msg", who, obj(method="set", params=obj(path="ro", value=2), id="s0")),
+                  ("msg", 1, obj(method="fetch", params=obj(id="f", path=obj(startsWith="r")), id=10)),
+                  ("msg", who, obj(method="set", params=obj(path="ro", value=3), id="s1")),
+                  ("msg", 2, obj(method="fetch", params=obj(id="g"), id=10)),
+                  ("msg", who, obj(method="set", params=obj(path="ro", value=4), id="s2")),
+                  ("msg", who, obj(method="set", params=obj(path="rw", value=4), id="s3")),
+                  ("msg", who, obj(method="call", params=obj(path="ro"), id="s4")),
+                  ("msg", who, obj(method="set", params=obj(path="m", value=1), id="s5")),
+                  ("msg", 0, obj(method="change", params=obj(path="ro", value=5), id=4)),
+                  ("msg", 1, obj(method="unfetch", params=obj(id="f"), id=11)),
+                  ("msg", who, obj(method="set", params=obj(path="ro", value=6), id="s6")),
+                  ("eof", 2), ("quiesce",),
+                  ("msg", 1, obj(method="set", params=obj(path="ro", value=7), id="s7")),
+                  ("reply", 0, 0, "result", True),
+                  ("quiesce",), ("eof", 1), ("eof", 0), ("quiesce",)]
+            out.append(Scenario(st, name="fetch-only-rules-%s-%d" % (tr, who)))
+    return out
